@@ -1,0 +1,22 @@
+//go:build verif
+
+package polling
+
+import (
+	"time"
+
+	"github.com/karagenc/socket.io-go/engine.io/parser"
+)
+
+// Exports for the verification harness in /verif. Compiled only with the
+// `verif` build tag; nothing here changes library behaviour.
+
+// VerifPollQueue wraps the unexported long-polling queue.
+type VerifPollQueue struct{ pq *pollQueue }
+
+func VerifNewPollQueue() *VerifPollQueue { return &VerifPollQueue{pq: newPollQueue()} }
+
+func (v *VerifPollQueue) Poll(timeout time.Duration) []*parser.Packet { return v.pq.poll(timeout) }
+func (v *VerifPollQueue) Add(packets ...*parser.Packet)               { v.pq.add(packets...) }
+func (v *VerifPollQueue) Get() []*parser.Packet                       { return v.pq.get() }
+func (v *VerifPollQueue) Len() int                                    { return v.pq.len() }
